@@ -390,3 +390,167 @@ func symDiffTag(own, rem, sel map[string]bool, partial bool) (o, r, s []string) 
 	}
 	return
 }
+
+// ---------- background compaction under wait_compact ----------
+
+// compactScenario: collections of DIFFERENT types with the SAME "table:key" name, all written with old raft
+// timestamps (beyond the 48 h lazy window); per name one type is cleared and re-created (old generation dead,
+// new one live), one is cleared (dead), one is given a TTL that ran out long ago (dead), the rest stay live.
+// Then a full compaction is played: the registered compaction filter (rockredis.VerifCompactFilter — the
+// production rockCompactFilter.Filter) is called for every engine pair in key order, twice, and what it
+// condemns is removed at once, as a compaction does. Ownership oracle: only keys of DEAD generations of the
+// (type, table, key) they belong to may disappear; every live collection reads as before.
+func compactScenario(seed int64, idx int, emit func(e2eRec)) {
+	dir, err := os.MkdirTemp("", "verif-codec-cmp-")
+	if err != nil {
+		panic(err)
+	}
+	defer os.RemoveAll(dir)
+	c0 := rr.NewRockRedisDBConfig()
+	c0.EngineType = "mem"
+	c0.DataDir = dir
+	c0.EnableTableCounter = true
+	c0.ExpirationPolicy = common.WaitCompact
+	c0.DataVersion = common.ValueHeaderV1
+	db, err := rr.OpenRockDB(c0)
+	id := fmt.Sprintf("cp%d", idx)
+	rec := e2eRec{ID: id, Seed: seed, Policy: "compact", Op: "compaction(filter)"}
+	if err != nil {
+		rec.Err = "open: " + err.Error()
+		emit(rec)
+		return
+	}
+	defer db.Close()
+	r := hx.NewRng(seed*13 + int64(idx)*4099 + 5)
+	e := &e2e{db: db, r: r, policy: "compact", ts: 1700000000000000000, owned: map[collID]map[string]bool{}, alive: map[collID][][]byte{},
+		mowned: map[collID]map[string]map[string]bool{}, score: map[collID]map[string]float64{}}
+	names := [][2]string{{"t", "k"}, {"t", "kk"}, {"t2", "k"}, {"t", "k:"}}
+	dead := map[string]bool{}
+	kill := func(c collID) { // everything the collection owns right now belongs to a dead generation
+		cur := e.dump()
+		for k := range e.owned[c] {
+			if _, ok := cur[k]; ok {
+				dead[k] = true
+			}
+		}
+		e.owned[c] = map[string]bool{}
+		delete(e.mowned, c)
+		delete(e.score, c)
+		e.alive[c] = nil
+	}
+	// a string with a TTL that is long over comes first in key order: the filter reads the clock on it
+	ttl := collID{"kv", "a", "ttl"}
+	before0 := e.dump()
+	if err := db.SetEx(e.tick(), ttl.raw(), 1, []byte("v")); err != nil {
+		rec.Err = "setex: " + err.Error()
+		emit(rec)
+		return
+	}
+	e.owned[ttl] = map[string]bool{}
+	for k := range e.dump() {
+		if _, ok := before0[k]; !ok && !isTableCounter(k) {
+			dead[k] = true
+		}
+	}
+	for ni, nm := range names {
+		types := []string{"hash", "list", "set", "zset"}
+		if ni%2 == 0 {
+			types = append(types, "bitmap")
+		} else {
+			types = append(types, "kv")
+		}
+		for _, typ := range types {
+			c := collID{typ, nm[0], nm[1]}
+			if err := e.populate(c, e.pickMembers(2+r.Pick(3), r.Chance(0.5))); err != nil {
+				rec.Logical = append(rec.Logical, fmt.Sprintf("populate %s: %v", c, err))
+			}
+		}
+		// per name: one type re-created, one cleared, one expired
+		coll := []string{"hash", "list", "set", "zset"}
+		r.Shuffle(len(coll), func(a, b int) { coll[a], coll[b] = coll[b], coll[a] })
+		clearIt := func(c collID) {
+			raw := c.raw()
+			switch c.Typ {
+			case "hash":
+				db.HClear(e.tick(), raw)
+			case "list":
+				db.LClear(e.tick(), raw)
+			case "set":
+				db.SClear(e.tick(), raw)
+			case "zset":
+				db.ZClear(e.tick(), raw)
+			}
+			kill(c)
+		}
+		re := collID{coll[0], nm[0], nm[1]}
+		clearIt(re)
+		e.ts += 3600 * 1000000000
+		if err := e.populate(re, e.pickMembers(2, false)); err != nil {
+			rec.Logical = append(rec.Logical, fmt.Sprintf("re-create %s: %v", re, err))
+		}
+		if r.Chance(0.7) {
+			clearIt(collID{coll[1], nm[0], nm[1]})
+		}
+		if r.Chance(0.7) {
+			x := collID{coll[2], nm[0], nm[1]}
+			var n int64
+			var xerr error
+			switch x.Typ {
+			case "hash":
+				n, xerr = db.HExpire(e.tick(), x.raw(), 1)
+			case "list":
+				n, xerr = db.LExpire(e.tick(), x.raw(), 1)
+			case "set":
+				n, xerr = db.SExpire(e.tick(), x.raw(), 1)
+			case "zset":
+				n, xerr = db.ZExpire(e.tick(), x.raw(), 1)
+			}
+			if xerr == nil && n == 1 {
+				kill(x)
+			}
+		}
+	}
+	rec.Logical = append(rec.Logical, e.lentCheck()...)
+	logBefore := map[collID]string{}
+	for _, o := range e.order {
+		logBefore[o] = e.logical(o)
+	}
+	before := e.dump()
+	for k := range dead { // keys that a later command already removed are not the compaction's business
+		if _, ok := before[k]; !ok {
+			delete(dead, k)
+		}
+	}
+	// the compaction: every pair in key order through the production filter, condemned keys go at once
+	for pass := 0; pass < 2; pass++ {
+		cur := e.dump()
+		keys := make([]string, 0, len(cur))
+		for k := range cur {
+			keys = append(keys, k)
+		}
+		sort.Strings(keys)
+		for _, k := range keys {
+			rm, ok := db.VerifCompactFilter([]byte(k), []byte(cur[k]))
+			if !ok {
+				rec.Err = "no compaction filter registered"
+				emit(rec)
+				return
+			}
+			if rm {
+				db.VerifRawDelete([][]byte{[]byte(k)})
+			}
+		}
+	}
+	after := e.dump()
+	diffInto(&rec, before, after)
+	rec.Owned = sortedHex(dead)
+	if len(rec.Removed) == 0 {
+		rec.Logical = append(rec.Logical, "the compaction removed nothing although dead generations exist (scenario without effect)")
+	}
+	for _, o := range e.order {
+		if got := e.logical(o); got != logBefore[o] {
+			rec.Logical = append(rec.Logical, fmt.Sprintf("%s read %s before the compaction and %s after it", o, logBefore[o], got))
+		}
+	}
+	emit(rec)
+}
